@@ -389,8 +389,9 @@ def run_vcase(case, seed=0, case_timeout=300, want_post=True):
     res = {"name": case.name, "key": {k: core_json(v) for k, v in case.key.items()}, "obligations": 0, "discharged": 0,
            "backends": {}, "paths": 0, "solver_s": 0.0, "failures": [], "undecided": [], "errors": [], "notes": [],
            "status": "ok", "faithful": 0, "sample": None, "eps_mode": None}
-    old = signal.signal(signal.SIGALRM, _alarm)
-    signal.alarm(case_timeout)
+    # CPU time of this process, not wall time: a busy machine must not turn into "undecided"
+    old = signal.signal(signal.SIGPROF, _alarm)
+    signal.setitimer(signal.ITIMER_PROF, case_timeout)
     try:
         modes = {"symbolic": ["symbolic"], "zero": ["zero"], "symbolic-then-zero": ["symbolic", "zero"]}[case.eps]
         final = None
@@ -410,8 +411,8 @@ def run_vcase(case, seed=0, case_timeout=300, want_post=True):
     except Exception as e:
         res["errors"].append("%s %s: checker exception %s\n%s" % (case.name, res["key"], e, traceback.format_exc()[-2000:]))
     finally:
-        signal.alarm(0)
-        signal.signal(signal.SIGALRM, old)
+        signal.setitimer(signal.ITIMER_PROF, 0)
+        signal.signal(signal.SIGPROF, old)
     return res
 
 
@@ -481,9 +482,13 @@ def _run_mode(case, seed, eps_mode, want_post, probe=False):
                     else:
                         out["errors"].append("%s: the symbolic second backward differs from the first but the native replay does not (%s)" % (case.name, rep))
                 else:
-                    out["failures"].append({"obligation": case.name + ".frame." + fname, "what":
-                                            "frame/ghost fact '%s' does not hold after forward+backward" % fname,
-                                            "replay": {"path": pi}, "reproduced": True, "frame": True})
+                    rep = _replay_frame(case, sess, pc, rng, out_shape, fname)
+                    if rep.get("reproduced") or rep.get("native") == "no point on path found" or fname not in rep.get("checked", [fname]):
+                        out["failures"].append({"obligation": case.name + ".frame." + fname, "what":
+                                                "frame/ghost fact '%s' does not hold after forward+backward%s" % (fname, "; natively: %s" % rep["detail"] if rep.get("detail") else ""),
+                                                "replay": dict(rep, path=pi), "reproduced": bool(rep.get("reproduced")), "frame": True})
+                    else:
+                        out["errors"].append("%s: frame fact '%s' fails on the symbolic run but holds natively (%s): object-identity artefact of the symbolic layer?" % (case.name, fname, rep))
         if not want_post:
             continue
         # ---- post: grad == vjp, exact shape
@@ -711,6 +716,59 @@ def _replay_numeric(case, sess, pc, model, rng, out_shape, leaf, elem):
                         "oracle": "central finite differences of the real forward (float64)"})
             return rep
     rep["points_tried"] = tried
+    return rep
+
+
+def _replay_frame(case, sess, pc, rng, out_shape, fname):
+    """natively (byte comparisons): operands and the caller's gradient unchanged by forward+backward, no gradient for non-requiring operands, a repeated
+    forward bit-identical, a frozen operand's stale gradient untouched by a later graph"""
+    from synapgrad.tensor import Tensor
+    rep = {"reproduced": False, "fact": fname}
+    for p in _candidate_points(case, sess, pc, None, rng, out_shape, n_random=40):
+        if not _pc_holds(list(sess.pre) + list(pc), p):
+            continue
+        try:
+            with shim.native():
+                T, K = _native_leaves(case, p)
+                snaps = {l.name: (T[l.name].data, T[l.name].data.copy()) for l in case.leaves}
+                out = case.build(T, K)
+                o1 = np.array(out.data, copy=True)
+                T2, K2 = _native_leaves(case, p)
+                o2 = np.array(case.build(T2, K2).data)
+                g = np.array([p[n] for n in var_names("g", out.shape)], dtype=np.float64).reshape(out.shape)
+                gt, g0 = Tensor(g), g.copy()
+                if out.requires_grad:
+                    out.backward(gt)
+                facts = {"upstream-grad": bool(np.array_equal(gt.data, g0) and gt.data is g), "repeat-gives-identical-result": bool(o1.shape == o2.shape and np.array_equal(o1, o2))}
+                for l in case.leaves:
+                    arr, cp = snaps[l.name]
+                    facts["data[%s]" % l.name] = bool(T[l.name].data is arr and np.array_equal(arr, cp))
+                    if not l.requires_grad:
+                        facts["no-grad-for-non-requiring[%s]" % l.name] = T[l.name]._grad is None
+                req = [l for l in case.leaves if l.requires_grad]
+                if fname.startswith("frozen-operand") and len(req) >= 2:
+                    tz = T[req[-1].name]
+                    buf = tz._grad
+                    cp = None if buf is None else np.array(buf, copy=True)
+                    tz.requires_grad = False
+                    out3 = case.build(T, K)
+                    if out3.requires_grad:
+                        out3.backward(Tensor(np.ones(out3.shape)))
+                    facts[fname] = bool(tz._grad is buf and (buf is None or np.array_equal(buf, cp)))
+                    if not facts[fname]:
+                        rep["detail"] = "operand %s was frozen after receiving the gradient %s; a later backward left %s there" % (req[-1].name, None if cp is None else cp.tolist(), None if tz._grad is None else np.asarray(tz._grad).tolist())
+        except Exception as e:
+            rep.update({"native_exception": "%s: %s" % (type(e).__name__, str(e)[:300]), "native": "raised"})
+            return rep
+        rep["checked"] = sorted(facts)
+        rep["inputs"] = p
+        if fname in facts and not facts[fname]:
+            rep["reproduced"] = True
+            rep.setdefault("detail", "fact '%s' is false on the float64 run at the recorded inputs" % fname)
+        else:
+            rep["native"] = "holds"
+        return rep
+    rep["native"] = "no point on path found"
     return rep
 
 
